@@ -8,6 +8,7 @@ mod e1;
 mod fields;
 mod forge;
 mod fw;
+mod jsonmut;
 mod opsem;
 mod pv;
 
